@@ -27,10 +27,12 @@ import multiprocessing as mp
 import os
 import re
 import sys
+import threading
 import time
 import zlib
 from collections import defaultdict, deque
 
+import aln_C04 as A
 import impl_C04 as I
 from common import REPLAYS, Run, main_wrapper
 from tlc import Scratch, read_emitted, run_tlc
@@ -455,6 +457,12 @@ def run_universe(ukey):
         lst.sort(key=lambda t: (t[0], t[1]))
     rep.stats["spec_states"] = len(u["looks"])
     rep.stats["spec_transitions"] = sum(len(v) for v in u["trans"].values())
+    if G["level"] == "aln":
+        both = G["tier"] == "thorough"
+        pick = (zlib.crc32(ukey.encode()) ^ G["seed"]) % 2
+        for mode in ("add", "db") if both else (("add", "db")[pick],):
+            A.check_variant(rep, G, mode, ukey, u)
+        return rep.dump()
     for kind in I.KINDS:
         for mode in modes_for(u, ukey):
             check_variant(rep, kind, mode, ukey, u)
@@ -462,10 +470,14 @@ def run_universe(ukey):
 
 
 # ------------------------------------------------------------------ stages
-_UKEY = re.compile(r'^"\{\\"from\\":\[(\d+),(\[\[[0-9,\[\]]*?\]\]),')
+_UKEY = {
+    "seq": re.compile(r'^"\{\\"from\\":\[(\d+,\[\[[0-9,\[\]]*?\]\]),'),
+    "aln": re.compile(r'^"\{\\"from\\":\[(\[[0-9,]*\],\[[0-9,]*\],\[\[[0-9,\[\]]*?\]\],\\"[+-]\\"),'),
+}
+_NKEY = {"seq": 2, "aln": 4}
 
 
-def split_by_universe(emit, scratch, name):
+def split_by_universe(emit, scratch, name, level):
     """one file of raw records per universe (the emitted file of the larger configurations does not fit in memory as objects)"""
     files, handles = {}, {}
     n = 0
@@ -473,13 +485,13 @@ def split_by_universe(emit, scratch, name):
         for line in fh:
             if not line.strip():
                 continue
-            m = _UKEY.match(line)
+            m = _UKEY[level].match(line)
             if m is None:
                 r = json.loads(line)
                 r = json.loads(r) if isinstance(r, str) else r
-                ukey = dumps(r["from"][:2])
+                ukey = dumps(r["from"][: _NKEY[level]])
             else:
-                ukey = f"[{m.group(1)},{m.group(2)}]"
+                ukey = "[" + m.group(1).replace('\\"', '"') + "]"
             h = handles.get(ukey)
             if h is None:
                 files[ukey] = scratch / f"u-{name}-{len(files)}.ndjson"
@@ -505,17 +517,42 @@ def load_universe(path):
     return u
 
 
-def stage(run, scratch, name, cfg, totals, tm, edge_rate, window_rate):
-    emit = scratch / f"emit-{name}.ndjson"
-    res = run_tlc("Annotation", cfg, scratch, workers=NPROC, env={"EMIT_FILE": emit}, timeout=3000)
+class TlcJob:
+    """TLC in a background thread: the model checker of the next stage runs while this stage is replayed"""
+
+    def __init__(self, scratch, name, cfg, level, workers):
+        self.name, self.level = name, level
+        self.emit = scratch / f"emit-{name}.ndjson"
+        self.res = self.err = None
+        spec = "Annotation" if level == "seq" else "AnnotationAln"
+
+        def work():
+            try:
+                self.res = run_tlc(spec, cfg, scratch, workers=workers, env={"EMIT_FILE": self.emit}, timeout=3000)
+            except BaseException as ex:  # re-raised in the main thread
+                self.err = ex
+
+        self.thread = threading.Thread(target=work, daemon=True)
+        self.thread.start()
+
+    def result(self):
+        self.thread.join()
+        if self.err is not None:
+            raise self.err
+        return self.res
+
+
+def stage(run, scratch, job, totals, tm, edge_rate, window_rate):
+    name, level = job.name, job.level
+    res = job.result()
     run.add_tlc(res)
     tm[f"{name}.tlc_s"] = round(res.wall, 1)
     t0 = time.time()
-    files, nrec = split_by_universe(emit, scratch, name)
-    os.unlink(emit)
+    files, nrec = split_by_universe(job.emit, scratch, name, level)
+    os.unlink(job.emit)
     if not files:
         raise RuntimeError("TLC emitted nothing")
-    G.update(files=files, seed=run.seed, tier=run.tier, edge_rate=edge_rate, window_rate=window_rate)
+    G.update(files=files, seed=run.seed, tier=run.tier, edge_rate=edge_rate, window_rate=window_rate, level=level)
     tm[f"{name}.emitted"] = nrec
     tm[f"{name}.universes"] = len(files)
     tm[f"{name}.split_s"] = round(time.time() - t0, 1)
@@ -540,6 +577,8 @@ def warmup():
 
 def replay_file(path):
     d = json.load(open(path))
+    if d.get("level") == "alignment":
+        return A.replay(d)
     kind, mode = d["kind"], d.get("mode", "add")
     seq, _ = I.make_universe(kind, mode, d["root"], d["offset"], d["features"], d.get("via"))
     print(f"{kind} {mode} root {d['root']!r} offset {d['offset']} features {d['features']}")
@@ -573,19 +612,33 @@ def check(run: Run):
         old.unlink()
     totals = defaultdict(int)
     tm = {}
+    env = os.environ.get
+    if tier == "quick":
+        plan = [  # (stage, cfg, level, edge rate, window rate)
+            ("views", "MC_Annotation_quick.cfg", "seq", float(env("VERIF_C04_EDGES", "0.06")), float(env("VERIF_C04_WINDOWS", "0.06"))),
+            ("aln", "MC_Annotation_aln_quick.cfg", "aln", float(env("VERIF_C04_EDGES", "0.06")), 0),
+        ]
+    else:
+        plan = [
+            # P = 5, all filters: every transition, every window
+            ("small", "MC_Annotation_thorough_small.cfg", "seq", 1.0, 1.0),
+            # alignments of 6 columns, row x of 4 residues: every state, a seeded sample of the other histories
+            ("aln", "MC_Annotation_aln_thorough.cfg", "aln", float(env("VERIF_C04_EDGES", "0.2")), 0),
+            # P = 6, views of copies / feature slices explored as well: every state, seeded sample of the other histories and of the windows
+            ("views", "MC_Annotation_thorough.cfg", "seq", float(env("VERIF_C04_EDGES", "0.1")), float(env("VERIF_C04_WINDOWS", "0.15"))),
+        ]
+    only = env("VERIF_C04_STAGES")  # debugging aid
+    if only:
+        plan = [p for p in plan if p[0] in only.split(",")]
     with Scratch("C04") as scratch:
-        if tier == "quick":
-            stage(run, scratch, "views", "MC_Annotation_quick.cfg", totals, tm,
-                  float(os.environ.get("VERIF_C04_EDGES", "0.1")), float(os.environ.get("VERIF_C04_WINDOWS", "0.1")))
-        else:
-            stages = os.environ.get("VERIF_C04_STAGES", "small,views").split(",")  # debugging aid
-            if "small" in stages:
-                # P = 5, all filters: every transition, every window
-                stage(run, scratch, "small", "MC_Annotation_thorough_small.cfg", totals, tm, 1.0, 1.0)
-            if "views" in stages:
-                # P = 6, views of copies explored as well: every state, seeded sample of the other histories and of the windows
-                stage(run, scratch, "views", "MC_Annotation_thorough.cfg", totals, tm,
-                      float(os.environ.get("VERIF_C04_EDGES", "0.1")), float(os.environ.get("VERIF_C04_WINDOWS", "0.15")))
+        # all model-checking runs start now (they share the TLC worker budget) and are replayed in order as they finish
+        jobs = [TlcJob(scratch, name, cfg, level, max(2, NPROC // len(plan))) for name, cfg, level, _, _ in plan]
+        try:
+            for job, (_, _, _, er, wr) in zip(jobs, plan):
+                stage(run, scratch, job, totals, tm, er, wr)
+        finally:
+            for job in jobs:
+                job.thread.join()
     cases = totals["queries"] + totals["window_queries"] + totals["slices"] + totals["created"]
     run.cov["traces_validated_against_impl"] = totals["states"] + totals["transitions"]
     run.cov["evaluations"] = cases
